@@ -34,6 +34,9 @@ func (s *scanner) setPaging(query ast.Query) {
 		query.SetSkip(0)
 	}
 	s.targetOffset = *query.GetSkip()
+	if s.targetOffset < 0 {
+		s.targetOffset = 0
+	}
 
 	if query.GetLimit() == nil || *query.GetLimit() < 0 {
 		query.SetLimit(math.MaxInt64)
@@ -237,6 +240,9 @@ func (scanner *sortingScanner) ScanCursor(tx *bbolt.Tx, cursorProvider ast.SetCu
 	results := &llrb.Tree{}
 	isChildStore := scanner.store.IsChildStore()
 	maxResults := scanner.targetOffset + scanner.targetLimit
+	if maxResults < 0 { // overflow: both terms are non-negative
+		maxResults = math.MaxInt64
+	}
 	for cursor.IsValid() {
 		current := cursor.Current()
 		cursor.Next()
